@@ -134,9 +134,20 @@ func (fs LocalFileSystem) ReadDir(ctx context.Context, name string, recursive bo
 			return err
 		}
 
+		// filepath.Walk doesn't follow symbolic links: describe what the
+		// link refers to, like Stat and Open do
+		isLink := fi.Mode()&os.ModeSymlink != 0
+		if isLink {
+			fi, err = os.Stat(p)
+			if err != nil {
+				// dangling link: the resource doesn't exist
+				return nil
+			}
+		}
+
 		l = append(l, *fileInfoFromOS(href, fi))
 
-		if !recursive && fi.IsDir() && path != p {
+		if !recursive && fi.IsDir() && path != p && !isLink {
 			return filepath.SkipDir
 		}
 		return nil
